@@ -213,6 +213,37 @@ class History:
                                               self.model[(sid, ns)]), res)
             self.model[(sid, ns)].update(upd)
             return
+        if r < 0.72:
+            # an outer session() block with a complete inner block for the
+            # same client and namespace inside it (overlapping handlers),
+            # optionally left through an exception: everything modified
+            # inside a block is persisted when the block exits
+            inner = rng.random() < 0.6
+            raises = rng.random() < 0.4
+            a1 = {'a%d' % rng.randint(0, 2): self.value(T, ns)}
+            b = {'b%d' % rng.randint(0, 2): self.value(T, ns)} \
+                if inner else None
+            a2 = {'c%d' % rng.randint(0, 2): self.value(T, ns)}
+            op = ['session_nested', sid, ns, copy.deepcopy(a1),
+                  copy.deepcopy(b), copy.deepcopy(a2), raises]
+            self.ops.append(op)
+            res = self.r.step(op)
+            if res.get('exc'):
+                return self.fail('session() block raised %s' % res['exc'],
+                                 res)
+            ctx.count('session_blocks_nested' if inner else
+                      'session_blocks_plain')
+            if raises:
+                ctx.count('session_blocks_left_by_exception')
+            self.model[(sid, ns)].update(a1)
+            if b:
+                self.model[(sid, ns)].update(b)
+            self.model[(sid, ns)].update(a2)
+            op = ['get_session', sid, ns]
+            self.ops.append(op)
+            res = self.r.step(op)
+            self.check_get(res, sid, ns, T)
+            return
         # read: own namespace, and the same sid under other namespaces /
         # other clients' view
         op = ['get_session', sid, ns]
@@ -268,6 +299,8 @@ def run(ctx):
     ctx.require('saves', 20)
     ctx.require('sibling_namespace_reads', 5)
     ctx.require('duplicate_connects', 5)
+    ctx.require('session_blocks_nested', 5)
+    ctx.require('session_blocks_left_by_exception', 5)
     k = 0
     while not ctx.out_of_time() and not ctx.too_many_violations():
         run_case(ctx, k)
